@@ -146,9 +146,11 @@ Qed.
 Lemma existsb_eqb_In d l : existsb (Nat.eqb d) l = true -> In d l.
 Proof. intros H. apply existsb_exists in H. destruct H as (x & Hin & E). apply Nat.eqb_eq in E. now subst. Qed.
 
-Lemma qinv_step s l s' : Inv s -> QInv s -> step s l = Some s' -> QInv s'.
+(* per node: the quiet-run facts of node j are preserved by every label (they depend on the other nodes only through
+   blockers and permitting dependencies, which are stable) *)
+Lemma qnode_step s l s' j : Inv s -> quiet s' -> step s l = Some s' -> qnode s j -> qnode s' j.
 Proof.
-  intros HI HQ Hs Hq j. pose proof (quiet_back _ _ _ Hs Hq) as Hq0. specialize (HQ Hq0).
+  intros HI Hq Hs HQ. pose proof (quiet_back _ _ _ Hs Hq) as Hq0.
   destruct Hq0 as [Hc0 Ht0].
   pose proof (iC _ _ HI) as HC.
   unfold qnode.
@@ -158,7 +160,7 @@ Proof.
   start_step HI Hs.
   all: try apply HQ.
   all: try (destruct (Nat.eqb_spec j i) as [->|Hne]; [|apply HQ]).
-  all: try (pose proof (HQ i) as HQi; unfold qnode_gen in HQi |- *; nsimpl; rewrite ?M, ?M0 in *; nsimpl).
+  all: try (pose proof HQ as HQi; unfold qnode_gen in HQi |- *; nsimpl; rewrite ?M, ?M0 in *; nsimpl).
   all: try (pose proof (HD i) as HDi; unfold counts in HDi; rewrite ?M in HDi; nsimpl).
   all: try (pose proof (HA i) as HAi; unfold coherent in HAi; rewrite ?M in HAi; nsimpl).
   all: unfold ran_ok in *; nsimpl.
@@ -228,6 +230,12 @@ Proof.
   - (* WFinish *)
     split; [auto|]. split; [intros _; apply Q2; left; congruence|].
     destruct (st (nd s i)); auto; try exact Q3; try (exfalso; intuition discriminate).
+Qed.
+
+Lemma qinv_step s l s' : Inv s -> QInv s -> step s l = Some s' -> QInv s'.
+Proof.
+  intros HI HQ Hs Hq j. pose proof (quiet_back _ _ _ Hs Hq) as Hq0.
+  eapply qnode_step; eauto.
 Qed.
 
 Lemma qinv_init : QInv (init c).
@@ -326,7 +334,7 @@ Definition ran_to_end (s : state) (i : nat) : Prop :=
     (last = true -> st x = NSuccess) /\
     (last = false -> st x = NError /\ rc x = rlimit (steps c i)).
 
-Theorem final_states s : Reach c s -> quiet s -> pc s = LDone -> forall i, i < n ->
+Definition final_clauses (s : state) (i : nat) : Prop :=
   (blocked s i = true ->
      att (nd s i) = 0 /\ ((st (nd s i) = NCancel /\ blocker s i NCancel) \/ (st (nd s i) = NSkipped /\ blocker s i NSkipped))) /\
   (blocked s i = false -> pre (steps c i) = false -> att (nd s i) = 0 /\ st (nd s i) = NSkipped) /\
@@ -334,9 +342,12 @@ Theorem final_states s : Reach c s -> quiet s -> pc s = LDone -> forall i, i < n
   (blocked s i = false -> pre (steps c i) = true -> dry c = false -> sfail (steps c i) = true ->
      att (nd s i) = 0 /\ st (nd s i) = NError) /\
   (blocked s i = false -> pre (steps c i) = true -> dry c = false -> sfail (steps c i) = false -> ran_to_end s i).
+
+(* the final state of ONE node, from the invariants and the quiet-run facts of that node (any start state) *)
+Lemma final_states_node s i : Inv s -> XInv s -> qnode s i -> quiet s -> pc s = LDone -> i < n -> final_clauses s i.
 Proof.
-  intros Hr Hq Hpc i Hi. destruct (reach_all_inv s Hr) as (HI & HQ & HX).
-  specialize (HQ Hq i). destruct (HX Hq) as [HX1 HX2]. rewrite Hpc in *.
+  intros HI HX HQ Hq Hpc Hi. unfold final_clauses.
+  destruct (HX Hq) as [HX1 HX2]. rewrite Hpc in *.
   specialize (HX1 eq_refl i Hi). specialize (HX2 eq_refl i Hi).
   pose proof (iA _ _ HI i) as HAi. pose proof (iC _ _ HI i) as HCi. pose proof (iD _ _ HI i) as HDi.
   unfold qnode, qnode_gen in HQ. destruct HQ as (Q1 & Q2 & Q3). unfold coherent in HAi. unfold counts in HDi.
@@ -392,6 +403,13 @@ Proof.
         split; [discriminate|]. intros _ _ _ _. destruct Q3 as (fs & B1 & B2 & B3 & B4).
         unfold ran_to_end. rewrite Est. exists true, fs. repeat split; auto; try discriminate.
 Qed.
+
+Theorem final_states s : Reach c s -> quiet s -> pc s = LDone -> forall i, i < n -> final_clauses s i.
+Proof.
+  intros Hr Hq Hpc i Hi. destruct (reach_all_inv s Hr) as (HI & HQ & HX).
+  apply final_states_node; auto.
+Qed.
+
 
 
 (* C02 corollary: a step none of whose dependencies blocks, with its precondition met, is executed at least once
